@@ -180,7 +180,7 @@ def run(scn, loop):
             pr = b.proxy
             for c in calls:
                 getattr(pr, c['beh'])(*ARGS[c['args']][0], **ARGS[c['args']][1])
-            return pr.call()
+            return pr() if len(calls) % 2 else pr.call()       # the proxy object itself is callable
         for c in calls:
             a, k = ARGS[c['args']]
             if c['notif']:
